@@ -26,7 +26,8 @@ REQUIRED = ["op.occupancy_at_time", "op.state_at_time", "op.occupancies_at_time_
             "op.export_xml", "op.export_pb", "state-without-orientation", "goal-lanelets.dict",
             "goal-lanelets.defaultdict", "default-constructed-obstacle", "fixture", "light-with-successors",
             "goal-check.scenario-state-with-vx-vy-orientation", "goal_reached.scenario-trajectory",
-            "uncertain-regions-under-off-centre-shape", "registered-obstacles-on-a-lanelet-chain", "op.merge_queries"]
+            "uncertain-regions-under-off-centre-shape", "registered-obstacles-on-a-lanelet-chain", "op.merge_queries",
+            "query-answers-rechecked"]
 ASSUMPTIONS = ["private caches are not compared (C11 covers them where observable)",
                "an exception raised by a read-only operation is not judged here (totality is C19 / C04 / C08 business)"]
 SHARDS = {"quick": 4, "thorough": 16}
@@ -58,6 +59,19 @@ def run(ctx):
 
     def snapshot(sc, pps):
         return {"scenario": S.snap_scenario(sc, derived=True), "pps": S.snap_pps(pps, derived=True)}
+
+    def answers(sc):
+        """what the scenario ANSWERS (observable through queries only): lanelet look-ups at fixed probe points"""
+        net = sc.lanelet_network
+        las = net.lanelets[:12]
+        if not las:
+            return {}
+        pts = [np.array(la.center_vertices[len(la.center_vertices) // 2][:2], dtype=float) for la in las]
+        pts.append(np.array([1e5, -1e5]))
+        from commonroad.geometry.shape import Rectangle as _R
+        out = {"by_position": [sorted(x) for x in net.find_lanelet_by_position(pts)],
+               "by_shape": [sorted(net.find_lanelet_by_shape(_R(0.5, 0.25, p_, 0.3))) for p_ in pts[:6]]}
+        return out
 
     def exports(sc, pps):
         out = {}
@@ -292,6 +306,10 @@ def run(ctx):
     def drive(sc, pps, rng, tag, nops):
         base_snap = snapshot(sc, pps)
         base_exp = exports(sc, pps)
+        try:
+            base_ans = answers(sc)
+        except Exception:  # noqa  (e.g. a network whose index was never built: not judged)
+            base_ans = None
         seq = []
         for _ in range(nops):
             op = rng.choice(OPS)
@@ -314,6 +332,18 @@ def run(ctx):
                     ctx.violation("C18/changed%s" % S.generalise(p), "operation %s: %s: before %s after %s" % (op, p, a, b),
                                   wit)
                 return seq
+            if base_ans is not None:
+                ctx.counter("query-answers-rechecked")
+                try:
+                    ans = answers(sc)
+                except Exception as e:  # noqa
+                    ans = "raises-%s" % type(e).__name__
+                if ans != base_ans:
+                    k_ = next((k for k in base_ans if not isinstance(ans, dict) or ans.get(k) != base_ans[k]), "?")
+                    ctx.violation("C18/query-answers-differ-afterwards/%s/after-%s" % (k_, op),
+                                  "lanelet look-ups at fixed probe points answer differently after the operation sequence: "
+                                  "%s -> %s" % (base_ans.get(k_), ans.get(k_) if isinstance(ans, dict) else ans), wit)
+                    return seq
             if op in ("export_xml", "export_pb", "draw", "is_reached", "hash", "eq", "occupancy_set", "deepcopy", "pickle") \
                     or rng.random() < 0.15:
                 exp = exports(sc, pps)
